@@ -5,7 +5,7 @@ from . import _seq, _buf
 ID = "C05"
 ENGINE = "seqsim"
 LEVEL = "exploration"
-RUNS = {"quick": 24000, "thorough": 400000}
+RUNS = {"quick": 80000, "thorough": 400000}
 CHUNK = 250
 RULE = ("seeded traces over 1-3 JSON files with ONE root object each (+ nested handles), {Buffered, MemoryBuffered} x "
         "{Dict, List, AttrDict, AttrList}, every operation incl. clear/reset/update/nested-child mutators, interleaved "
